@@ -220,6 +220,22 @@ enum Slot {
     Raw(*const Payload),
 }
 
+/// A frame-owned guard whose destructor touches an atomic (the "reset the state word on drop" idiom).  It does so
+/// when its thread's frame ends normally and when the frame unwinds because of a panic raised by this very thread
+/// (armed); it stays away when the frame is cancelled from outside (another thread's panic tears the execution down).
+pub struct AGuard {
+    sh: SArc<Sh>,
+    i: usize,
+    armed: std::rc::Rc<std::cell::Cell<bool>>,
+}
+impl Drop for AGuard {
+    fn drop(&mut self) {
+        if !std::thread::panicking() || self.armed.get() {
+            let _ = self.sh.atoms[self.i].get().load(Ordering::Relaxed);
+        }
+    }
+}
+
 type MG = loom::sync::MutexGuard<'static, usize>;
 type RG = loom::sync::RwLockReadGuard<'static, usize>;
 type WG = loom::sync::RwLockWriteGuard<'static, usize>;
@@ -451,6 +467,8 @@ fn run_thread(sh: SArc<Sh>, t: usize) {
     let mut mg: HashMap<usize, MG> = HashMap::new();
     let mut rg: HashMap<usize, RG> = HashMap::new();
     let mut wg: HashMap<usize, WG> = HashMap::new();
+    let armed = std::rc::Rc::new(std::cell::Cell::new(false));
+    let mut aguards: Vec<AGuard> = Vec::new();
     let mut pc = 0usize;
     while pc < code.len() {
         let ins = &code[pc];
@@ -500,8 +518,21 @@ fn run_thread(sh: SArc<Sh>, t: usize) {
                 res = Some(v as i64);
             }
             "fence" => fence(ord(&ins.ord)),
+            "wmut" if ins.k == "panic" => {
+                armed.set(true);
+                sh.atoms[oi()].get().with_mut(|_| panic!("verif-panic"))
+            }
             "wmut" => sh.atoms[oi()].get().with_mut(|p| *p = ins.v as usize),
+            "aguard" => aguards.push(AGuard { sh: sh.clone(), i: oi(), armed: armed.clone() }),
             "uld" => res = Some(unsafe { sh.atoms[oi()].get().unsync_load() } as i64),
+            "rd" if ins.k == "panic" => {
+                armed.set(true);
+                sh.cells[oi()].get().with(|_| panic!("verif-panic"))
+            }
+            "wr" if ins.k == "panic" => {
+                armed.set(true);
+                sh.cells[oi()].get().with_mut(|_| panic!("verif-panic"))
+            }
             "rd" => sh.cells[oi()].get().with(|_| ()),
             "wr" => sh.cells[oi()].get().with_mut(|_| ()),
             // usage errors loom detects with an assertion (C06: must fail the model, not abort the process)
@@ -780,7 +811,10 @@ fn run_thread(sh: SArc<Sh>, t: usize) {
                     next = pc + 1 + ins.w as usize;
                 }
             }
-            "panic" => panic!("verif-panic"),
+            "panic" => {
+                armed.set(true);
+                panic!("verif-panic")
+            }
             "stopx" => loom::stop_exploring(),
             "explore" => loom::explore(),
             "skipb" => loom::skip_branch(),
@@ -793,6 +827,7 @@ fn run_thread(sh: SArc<Sh>, t: usize) {
         }
         pc = next;
     }
+    drop(aguards);
     drop(wg);
     drop(rg);
     drop(mg);
